@@ -616,9 +616,11 @@ def rule_nan(ctx, R):
         ),
     )
     opop = Alt(Seq(L + "=0", "RET(NAN)"), Seq(L + "=1", G, P, Alt(Seq("SW[DISCR(%s)]=1" % P, "RET(SOME(%s))" % P), Seq("SW[DISCR(%s)]=0" % P, "RET(NAN)"))))
+    # the same with the library's spelling of "the popped value, or NaN when there was none"
+    opops = [opop] + [Alt(Seq(L + "=0", "RET(NAN)"), Seq(L + "=1", G, P, u % P, "RET(%s)" % (u % P))) for u in ("Option::unwrap_or_else(%s,FN:Num::nan)", "Option::unwrap_or(%s,NAN)")]
     for name, spec, what in (
         ("<core::state::OptState as hyeong::core::state::State>::push_stack", opush, "OptState::push_stack (bounds test, then the NaN rule)"),
-        ("<core::state::OptState as hyeong::core::state::State>::pop_stack", opop, "OptState::pop_stack (out of range or empty yields NaN)"),
+        ("<core::state::OptState as hyeong::core::state::State>::pop_stack", opops, "OptState::pop_stack (out of range or empty yields NaN)"),
     ):
         b = fb.bodies.get(name)
         if not R.anchor(b is not None, name, what):
@@ -626,7 +628,7 @@ def rule_nan(ctx, R):
         R.analyse(name)
         cfg = normal_cfg(b)
         d = language(b, fb, cfg, 0, cfg.returns, Events(b, fb), stop_at_exit=False)
-        check_lang(R, name + ":language", what, d, spec, b.span)
+        check_lang_any(R, name + ":language", what, d, spec if isinstance(spec, list) else [spec], b.span)
     # UnOptState must not override the defaults with something else
     for m in ("push_stack", "pop_stack"):
         n = "<core::state::UnOptState as hyeong::core::state::State>::" + m
